@@ -238,4 +238,43 @@ theorem C11_wildcard_not_monotone :
 
 example : star ∉ [[1],[2]].map id ∧ addrPasses id [[1]] [1] = true := by decide
 
+theorem domainList_no_star (lower : Bytes → Bytes) (l : List Bytes) (h : star ∉ l) : star ∉ domainList lower l := by
+  intro hm
+  unfold domainList at hm
+  rcases List.mem_map.1 hm with ⟨d, hd, e⟩
+  by_cases hs : d = star
+  · exact h (hs ▸ hd)
+  · have : (d == star) = false := by simpa using hs
+    simp only [this] at e
+    have e' : at' :: lower d = star := by simpa using e
+    simp [star, at'] at e'
+
+/-- **Removing domain rules never admits anyone new**, for lists without the wildcard entry `*`. -/
+theorem C11_domain_rules_monotone (lower : Bytes → Bytes) (l' l : List Bytes) (e : Bytes)
+    (hsub : ∀ a ∈ l', a ∈ l) (hstar : star ∉ l) (h : domainPasses lower l' e = true) :
+    domainPasses lower l e = true := by
+  have hs' : star ∉ l' := fun m => hstar (hsub _ m)
+  have n : domainList lower l ≠ [star] := fun c => domainList_no_star lower l hstar (c ▸ List.mem_singleton.2 rfl)
+  have n' : domainList lower l' ≠ [star] := fun c => domainList_no_star lower l' hs' (c ▸ List.mem_singleton.2 rfl)
+  have hsub' : ∀ x ∈ domainList lower l', x ∈ domainList lower l := by
+    intro x hx
+    unfold domainList at hx ⊢
+    rcases List.mem_map.1 hx with ⟨a, ha, rfl⟩
+    exact List.mem_map.2 ⟨a, hsub a ha, rfl⟩
+  unfold domainPasses at h ⊢
+  by_cases he : e = []
+  · simp [he] at h
+  · by_cases hl' : domainList lower l' = []
+    · simp [he, hl'] at h
+    · have hl : domainList lower l ≠ [] := by
+        intro c
+        cases hd : domainList lower l' with
+        | nil => exact hl' hd
+        | cons x xs => have := hsub' x (hd ▸ List.mem_cons_self); rw [c] at this; simp at this
+      simp only [beq_iff_eq, he, hl', n', hl, n, if_false] at h ⊢
+      rcases List.any_eq_true.1 h with ⟨d, hd, hp⟩
+      exact List.any_eq_true.2 ⟨d, hsub' d hd, hp⟩
+
+example : star ∉ [[1],[2]] ∧ domainPasses id [[1]] [9, 64, 1] = true := by decide
+
 end Sso.Validators
